@@ -205,6 +205,6 @@ def check(ctx: Ctx) -> None:
                f"generate_possible_content_evaluation_results with {n_rc} requirement and {n_fc} format keys yields {got_n} results"
                f"{'' if not isinstance(got_n, int) else f' ({len(set(outs[0][1]))} distinct)'}; the Cartesian product has {len(want)}",
                file="src/ahbicht/models/categorized_key_extract.py", function="CategorizedKeyExtract.generate_possible_content_evaluation_results")
-    ctx.soft(lambda: check_path(ctx, "C18.state", [EXTRACT_TREE, f"{CKE}.generate_possible_content_evaluation_results", f"{CKE}.__add__", f"{CKE}.sanitize", CND],
+    ctx.soft(lambda: check_path(ctx, "C18.state", [EXTRACT_TREE, EXTRACT_TREE.rsplit("_from_tree", 1)[0], f"{CKE}.generate_possible_content_evaluation_results", f"{CKE}.__add__", f"{CKE}.sanitize", CND],
                "key extraction and result generation must not depend on earlier calls"))
     ctx.assume("the enumeration clause is decided for n <= 2/3 format keys and m <= 3 requirement keys only (bounded)")
